@@ -18,6 +18,8 @@ import (
 	"encoding/json"
 	"flag"
 	"fmt"
+	"github.com/AliceO2Group/Control/apricot"
+	"github.com/AliceO2Group/Control/core/workflow/callable"
 	"os"
 	"os/exec"
 	"path/filepath"
@@ -61,6 +63,29 @@ type Role struct {
 	Host   int  `json:"host"`
 	Launch int  `json:"launch,omitempty"` // 0 running, 1 fails after launch, 2 stays staging
 	Cfg    bool `json:"cfgerr,omitempty"` // refuses CONFIGURE during creation
+	// KPend / KLeave only; the model does not depend on them (a pending call is a pending call wherever the
+	// registry files it): weight of the trigger (another moment of the same phase), await point
+	// (0 after_EXIT, 1 before_EXIT) and its weight
+	TW int `json:"tw,omitempty"`
+	AN int `json:"an,omitempty"`
+	AW int `json:"aw,omitempty"`
+}
+
+var awaitNames = []string{"after_EXIT", "before_EXIT"}
+
+func awaitExpr(r Role) string {
+	s := awaitNames[r.AN%len(awaitNames)]
+	if r.AW != 0 {
+		s += fmt.Sprintf("%+d", r.AW)
+	}
+	return s
+}
+
+func trigW(r Role) string {
+	if r.TW != 0 {
+		return fmt.Sprintf("%+d", r.TW)
+	}
+	return ""
 }
 
 type Spec struct {
@@ -88,6 +113,10 @@ type Op struct {
 
 type History struct {
 	Ops []Op `json:"ops"`
+	// hosts that join the detectors inventory only after the core started: the cache proxy between the core
+	// and the configuration backend (apricot/cacheproxy, configCache=true) has no entry for them.  The model
+	// does not know the difference: the proxy has to answer like the backend.
+	Late []int `json:"late,omitempty"`
 }
 
 // hosts and the detector each belongs to (index into detNames; -1 = none: creation fails)
@@ -397,11 +426,11 @@ func workflowYAML(name string, e int, s *Spec, gated bool) string {
 			fmt.Fprintf(&b, "  - name: \"r%d\"\n    call:\n      func: verif.Probe(\"d%d\")\n      trigger: %s%+d\n      timeout: 3s\n      critical: %v\n",
 				i, tidOf(e, i), trig, r.W, r.Crit)
 		case KLeave:
-			fmt.Fprintf(&b, "  - name: \"r%d\"\n    call:\n      func: verif.Probe(\"l%d\")\n      trigger: leave_%s\n      await: after_EXIT\n      timeout: 3s\n      critical: false\n",
-				i, tidOf(e, i), envStateNames[r.St])
+			fmt.Fprintf(&b, "  - name: \"r%d\"\n    call:\n      func: verif.Probe(\"l%d\")\n      trigger: leave_%s%s\n      await: %s\n      timeout: 3s\n      critical: false\n",
+				i, tidOf(e, i), envStateNames[r.St], trigW(r), awaitExpr(r))
 		case KPend:
-			fmt.Fprintf(&b, "  - name: \"r%d\"\n    call:\n      func: verif.Probe(\"p%d\")\n      trigger: before_CONFIGURE\n      await: after_EXIT\n      timeout: 3s\n      critical: false\n",
-				i, tidOf(e, i))
+			fmt.Fprintf(&b, "  - name: \"r%d\"\n    call:\n      func: verif.Probe(\"p%d\")\n      trigger: before_CONFIGURE%s\n      await: %s\n      timeout: 3s\n      critical: false\n",
+				i, tidOf(e, i), trigW(r), awaitExpr(r))
 		}
 	}
 	if s.Fail == 6 {
@@ -417,6 +446,7 @@ func workflowYAML(name string, e int, s *Spec, gated bool) string {
 }
 
 type gates struct {
+	calls   []*callable.Call // every hook call the core ran, in order (handed to the plugins by Call.Call)
 	mu      sync.Mutex
 	ch      map[string]chan struct{}
 	reached map[string]bool
@@ -448,8 +478,48 @@ type gatePlugin struct {
 }
 
 func (p *gatePlugin) GetName() string { return "vgate" }
-func (p *gatePlugin) CallStack(interface{}) map[string]interface{} {
+func (p *gatePlugin) CallStack(data interface{}) map[string]interface{} {
+	if c, ok := data.(*callable.Call); ok && c != nil {
+		p.g.mu.Lock()
+		p.g.calls = append(p.g.calls, c)
+		p.g.mu.Unlock()
+	}
 	return map[string]interface{}{}
+}
+
+// liveStarted: the calls of environment e that were started for an await point that never comes (probes
+// p<k> / l<k>) and are still cancellable - known from the calls the core ran, not from the environment's
+// own registry of pending calls (which is what teardown walks, and may have lost some)
+func (c *child) liveStarted(e int) int {
+	c.g.mu.Lock()
+	defer c.g.mu.Unlock()
+	n := 0
+	for _, call := range c.g.calls {
+		var k int
+		f := call.Func
+		i := strings.Index(f, "verif.Probe(\"")
+		if i < 0 {
+			continue
+		}
+		f = f[i+len("verif.Probe(\""):]
+		if !(strings.HasPrefix(f, "p") || strings.HasPrefix(f, "l")) {
+			continue
+		}
+		if _, err := fmt.Sscanf(f[1:], "%d", &k); err != nil || k/64 != e {
+			continue
+		}
+		if call.VerifC06Live() {
+			n++
+		}
+	}
+	return n
+}
+
+func maxInt(a, b int) int {
+	if a > b {
+		return a
+	}
+	return b
 }
 func (p *gatePlugin) ObjectStack(map[string]string, map[string]string) map[string]interface{} {
 	return map[string]interface{}{
@@ -784,6 +854,7 @@ func (c *child) projection() (envs []EnvObs, roster []TaskObs, adets []int) {
 					_, pend = ep.VerifC06PendingCalls()
 				}
 			}
+			pend = maxInt(pend, c.liveStarted(idx))
 			envs = append(envs, EnvObs{Id: idx, State: envStateCode(e.State), Dets: ds, Pend: pend})
 		}
 	}
@@ -1116,6 +1187,7 @@ func (c *child) runOp(o Op) Obs {
 			if ep := c.envPtr[o.E]; ep != nil {
 				_, ob.Pend = ep.VerifC06PendingCalls()
 			}
+			ob.Pend = maxInt(ob.Pend, c.liveStarted(o.E))
 			for _, k := range ob.Launch {
 				if !c.entered[k] && o.Spec.Fail != 6 {
 					ob.Note = "late-verdict"
@@ -1180,6 +1252,7 @@ func (c *child) runOp(o Op) Obs {
 			if ep := c.envPtr[o.E]; ep != nil {
 				_, ob.Pend = ep.VerifC06PendingCalls()
 			}
+			ob.Pend = maxInt(ob.Pend, c.liveStarted(o.E))
 			for _, k := range ob.Launch {
 				if !c.entered[k] && o.Spec.Fail != 6 {
 					ob.Note = "late-verdict"
@@ -1222,6 +1295,7 @@ func (c *child) runOp(o Op) Obs {
 			time.Sleep(5 * time.Millisecond)
 			_, pend = ep.VerifC06PendingCalls()
 		}
+		pend = maxInt(pend, c.liveStarted(o.E))
 		return c.observe(rcOf(err), pend)
 	case "killhold":
 		// a kill request for one unowned task whose KILL call the master holds: KillTasks keeps its mutex
@@ -1496,7 +1570,11 @@ func runChild(workDir string) {
 		hn := hostName(i)
 		agents = append(agents, simcore.Agent{Hostname: hn, CPUs: 64, Mem: 262144,
 			Ports: [][2]uint64{{9000, 12000}, {30000, 33000}}, Attributes: map[string]string{"machine_id": hn}})
-		if d >= 0 {
+		late := false
+		for _, l := range h.Late {
+			late = late || l == i
+		}
+		if d >= 0 && !late {
 			kv["o2/hardware/detectors/"+detNames[d]+"/flps/"+hn+"/"] = ""
 		}
 	}
@@ -1509,12 +1587,20 @@ func runChild(workDir string) {
 		},
 		Workflows: map[string]string{}, TaskClasses: map[string]string{},
 		Agents: agents, KV: kv,
-		Settings: map[string]interface{}{"metrics.port": 0},
+		// the core's default: the real cache proxy answers the detector look-ups
+		Settings: map[string]interface{}{"metrics.port": 0, "configCache": true},
 		Quiet:    os.Getenv("SIM_VERBOSE") == "",
 	})
 	if err != nil {
 		json.NewEncoder(os.Stdout).Encode(Result{Err: "simcore: " + err.Error()})
 		return
+	}
+	// the configuration service (and the snapshot of its cache proxy) exists now; the late hosts join
+	_ = apricot.Instance()
+	for _, l := range h.Late {
+		if l >= 0 && l < len(hostDet) && hostDet[l] >= 0 {
+			s.Consul.Set("o2/hardware/detectors/"+detNames[hostDet[l]]+"/flps/"+hostName(l)+"/", "")
+		}
 	}
 	c := &child{s: s, rec: rec, g: g, ctx: context.Background(), hist: h,
 		specs: map[int]*Spec{}, envIds: map[int]string{}, envIdx: map[string]int{}, envPtr: map[int]*environment.Environment{},
